@@ -4,6 +4,7 @@ import (
 	"context"
 	"errors"
 	"fmt"
+	"github.com/PowerDNS/lightningstream/utils/verifhook"
 	"strings"
 	"time"
 
@@ -76,6 +77,7 @@ func (s *Sweeper) sweep(ctx context.Context) error {
 
 	retention := s.conf.RetentionDuration()
 	cutoff := time.Now().Add(-retention)
+	cutoff = verifhook.Now("sweeper.cutoff", cutoff)
 	cutoffTS := header.TimestampFromTime(cutoff)
 
 	s.l.WithField("cutoff", cutoff).Debug("Sweep started")
@@ -163,6 +165,7 @@ func (s *Sweeper) sweep(ctx context.Context) error {
 			})
 			if limitReached {
 				l.Debug("Sweep limit reached, continuing after pause")
+				verifhook.Yield("sweeper.betweenSlices", dbiName)
 				// Give the app some room to get a write lock before continuing
 				if err := utils.SleepContext(ctx, s.conf.ReleaseDuration); err != nil {
 					return err
